@@ -15,6 +15,7 @@ import (
 	"sync"
 	"time"
 
+	"github.com/coreos/etcd/raft/raftpb"
 	"github.com/golang/protobuf/proto"
 	"github.com/marekgalovic/anndb/cluster"
 	pb "github.com/marekgalovic/anndb/protobuf"
@@ -434,6 +435,7 @@ func runC18(a *args) error {
 	}
 	if a.replay == "" {
 		c18ConnStress(st)
+		c18TransportDelivery(r.fork(), st)
 	}
 	var items []string
 	for _, c := range cases {
@@ -527,4 +529,82 @@ func c18ConnStress(st *stats) {
 		st.ImplFailures = append(st.ImplFailures, implFailure{Case: -1, What: fmt.Sprintf("membership changes applied while peers are being dialled and the member list is read: the apply loop stopped after %d of %d join/leave pairs and made no progress for 20 s; goroutines blocked on the book's locks in:%s", last, pairs, where), Key: "membership-book-wedged", Input: map[string]interface{}{"pairs": pairs, "dialers": 8}})
 	}
 	close(stop)
+}
+
+// c18TransportDelivery: a peer's forwarded proposal reaches a replica that knows no leader (cut off, or just restarted):
+// raft holds that delivery until a leader is known. Meanwhile the node's control loops must still be able to load
+// and unload raft groups (allocator loop / zero group's apply loop -> partition.loadRaft / unloadRaft) and the transport
+// must still deliver messages of other groups.
+func c18TransportDelivery(r *rng, st *stats) {
+	c := newSimCluster([]uint64{1, 2, 3})
+	defer c.close()
+	meta := newDatasetMeta(r, 2, pb.Space_Euclidean, [][]uint64{{1, 2, 3}, {1, 2}, {1, 2}}, 3)
+	if err := c.createDataset(meta); err != nil {
+		st.ImplFailures = append(st.ImplFailures, implFailure{Case: -1, What: "transport scenario: the simulated cluster could not be set up: " + err.Error(), Key: "cluster-setup", Input: nil})
+		return
+	}
+	dsid := uuid.FromBytesOrNil(meta.Id)
+	ds3 := c.nodes[3].datasets[dsid]
+	g := ds3.VerifRaft(0)
+	c.nodes[3].setUnreachable(true)
+	deadline := time.Now().Add(8 * time.Second)
+	for time.Now().Before(deadline) && g.VerifStatus().Lead != 0 {
+		time.Sleep(20 * time.Millisecond)
+	}
+	if g.VerifStatus().Lead != 0 {
+		st.count("transport-delivery:replica-kept-its-leader")
+		return
+	}
+	prop := raftpb.Message{Type: raftpb.MsgProp, From: 1, To: 3, Entries: []raftpb.Entry{{Data: []byte("x")}}}
+	pbytes, _ := prop.Marshal()
+	go c.nodes[3].transport.VerifReceive(context.Background(), &pb.RaftMessage{GroupId: meta.Partitions[0].Id, Message: pbytes})
+	time.Sleep(150 * time.Millisecond)
+	type step struct {
+		what string
+		f    func() error
+	}
+	steps := []step{
+		{"load the raft group of partition 1", func() error { return ds3.VerifLoadRaft(1, []uint64{3}) }},
+		{"deliver a heartbeat of that group", func() error {
+			hb := raftpb.Message{Type: raftpb.MsgHeartbeat, From: 3, To: 3, Term: 1}
+			hbytes, _ := hb.Marshal()
+			ctx, cancel := context.WithTimeout(context.Background(), 2*time.Second)
+			defer cancel()
+			_, err := c.nodes[3].transport.VerifReceive(ctx, &pb.RaftMessage{GroupId: meta.Partitions[1].Id, Message: hbytes})
+			return err
+		}},
+		{"unload the raft group of partition 1", func() error { return ds3.VerifUnloadRaft(1) }},
+	}
+	for _, s := range steps {
+		done := make(chan error, 1)
+		f := s.f
+		go func() { done <- f() }()
+		select {
+		case <-done:
+			st.count("transport-delivery:" + s.what + ":done")
+		case <-time.After(6 * time.Second):
+			buf := make([]byte, 1<<20)
+			buf = buf[:runtime.Stack(buf, true)]
+			where := ""
+			for _, gr := range strings.Split(string(buf), "\n\n") {
+				if strings.Contains(gr, "raft.(*RaftTransport).") && (strings.Contains(gr, "sync.(*RWMutex)") || strings.Contains(gr, "sync.(*Mutex)")) {
+					for _, l := range strings.Split(gr, "\n") {
+						if strings.HasPrefix(l, "github.com/marekgalovic/anndb/storage/raft.(*RaftTransport).") {
+							f := strings.TrimPrefix(l, "github.com/marekgalovic/anndb/storage/raft.(*RaftTransport).")
+							if k := strings.Index(f, "("); k > 0 {
+								f = f[:k]
+							}
+							if !strings.Contains(where, f) {
+								where += " " + f
+							}
+						}
+					}
+				}
+			}
+			st.ImplFailures = append(st.ImplFailures, implFailure{Case: -1, What: fmt.Sprintf("a forwarded proposal is waiting in a replica that knows no leader (node 3 cut off); the node then could not %s within 6 s; goroutines blocked on the transport's lock in:%s", s.what, where), Key: "transport-wedged-by-delivery", Input: map[string]interface{}{"step": s.what}})
+			c.nodes[3].setUnreachable(false)
+			return
+		}
+	}
+	c.nodes[3].setUnreachable(false)
 }
